@@ -3,7 +3,7 @@
    there correspond BOTH configurations with one Gallina model whose theorems are in that property's file.
    Here: the twin constants agree and the classification is total.  Statements only. *)
 From Coq Require Import List ZArith QArith Bool String.
-From BZ Require Import Base.PyVal Gen.F90Const Gen.PyShims Gen.PyCurveHelpers Gen.PyFnHelpers Gen.StatusMap Theory.Twins.
+From BZ Require Import Base.PyVal Gen.F90Const Gen.PyShims Gen.PyCurveHelpers Gen.PyFnHelpers Gen.StatusMap Theory.Twins Gen.F90Fn Gen.PyFnGeometric Theory.TwinsFn.
 Import ListNotations.
 
 Theorem C07_twin_constants_equal : forallb (fun t => Qeq_bool (snd (fst t)) (snd t)) twin_constants = true.
@@ -45,3 +45,36 @@ Theorem C07_status_chains_well_formed :
              ["curve_intersections"; "triangle_intersections"] = true.
 Proof. exact status_chains_well_formed. Qed.
 Print Assumptions C07_status_chains_well_formed.
+
+(* ---- scalar kernels: the Fortran routine, REGENERATED from its source text into the value language of the regenerated Python
+   function, equals its Python twin (every value where the two texts have one shape; every pair of planar nets / every quadruple
+   of planar points otherwise) ---- *)
+Theorem C07_in_interval_twin : forall v a b, f90_in_interval v a b = py_in_interval v a b.
+Proof. exact in_interval_twin. Qed.
+Print Assumptions C07_in_interval_twin.
+Theorem C07_cross_product_twin : forall u v, f90_cross_product u v = py_cross_product u v.
+Proof. exact cross_product_twin. Qed.
+Print Assumptions C07_cross_product_twin.
+Theorem C07_bbox_twin : forall n, f90_bbox n = py_bbox n.
+Proof. exact bbox_twin. Qed.
+Print Assumptions C07_bbox_twin.
+Theorem C07_contains_nd_twin : forall n p, f90_contains_nd n p = py_contains_nd n p.
+Proof. exact contains_nd_twin. Qed.
+Print Assumptions C07_contains_nd_twin.
+Theorem C07_wiggle_interval_twin : forall v, f90_wiggle_interval v = py_wiggle_interval v (VQ f90_helpers_WIGGLE).
+Proof. exact wiggle_interval_twin. Qed.
+Print Assumptions C07_wiggle_interval_twin.
+Theorem C07_segment_intersection_twin : forall a b c d, f90_segment_intersection a b c d = py_segment_intersection a b c d.
+Proof. exact segment_intersection_twin. Qed.
+Print Assumptions C07_segment_intersection_twin.
+Theorem C07_bbox_intersect_twin : forall x0 xs y0 ys u0 us v0 vs,
+  f90_bbox_intersect (vq_mat [x0 :: xs; y0 :: ys]) (vq_mat [u0 :: us; v0 :: vs])
+  = py_bbox_intersect (vq_mat [x0 :: xs; y0 :: ys]) (vq_mat [u0 :: us; v0 :: vs]).
+Proof. exact bbox_intersect_twin. Qed.
+Print Assumptions C07_bbox_intersect_twin.
+Theorem C07_parallel_lines_parameters_twin : forall x0 y0 x1 y1 x2 y2 x3 y3,
+  let F := f90_parallel_lines_parameters (V2 x0 y0) (V2 x1 y1) (V2 x2 y2) (V2 x3 y3) in
+  let P := py_parallel_lines_parameters (V2 x0 y0) (V2 x1 y1) (V2 x2 y2) (V2 x3 y3) in
+  vidx F 0 = vidx P 0 /\ (vidx P 0 = VB false -> val_close 0 (vidx P 1) (vidx F 1) = true).
+Proof. exact parallel_lines_parameters_twin. Qed.
+Print Assumptions C07_parallel_lines_parameters_twin.
